@@ -35,9 +35,23 @@ func WithCallback(cb string, pathItem *PathItem) NewCallbackOption {
 	}
 }
 
+// validatingCallbacksKey is the context key of the set of callbacks being validated.
+type validatingCallbacksKey struct{}
+
 // Validate returns an error if Callback does not comply with the OpenAPI spec.
 func (callback *Callback) Validate(ctx context.Context, opts ...ValidationOption) error {
 	ctx = WithValidationOptions(ctx, opts...)
+
+	// an operation inside a callback may declare callbacks that lead back to this one
+	visiting, _ := ctx.Value(validatingCallbacksKey{}).(map[*Callback]struct{})
+	if _, ok := visiting[callback]; ok {
+		return nil
+	}
+	if visiting == nil {
+		visiting = make(map[*Callback]struct{})
+		ctx = context.WithValue(ctx, validatingCallbacksKey{}, visiting)
+	}
+	visiting[callback] = struct{}{}
 
 	keys := make([]string, 0, callback.Len())
 	for key := range callback.Map() {
